@@ -91,19 +91,110 @@ class Arr:
     """An array-valued argument in its reference form (float64, C order); the
     input class decides dtype, memory layout and container."""
 
-    def __init__(self, a, ints=False, containers=("nd", "pd", "list"), nan_at=None):
+    def __init__(self, a, ints=False, containers=("nd", "pd", "list"), nan_at=None, data=None):
         self.a = np.array(a, dtype=np.float64)
         self.ints = ints
         self.containers = containers
         self.nan_at = nan_at          # flat position that becomes NaN in the float classes
+        # a sample of observations (the value classes below apply) as opposed to a structural argument
+        # (cell numbers, categories, model parameters, polygon vertices ...)
+        self.data = (not ints) if data is None else data
 
 
-def convert(arr, cls, argname=""):
+# Value classes: WHAT the observations look like, orthogonal to the input class (container / dtype /
+# layout).  Real hydrological samples are full of repeated values (rounded gauge readings, censored
+# flows, dry-spell zeros, missing data); code in front of a kernel / scipy often treats exactly those
+# specially (jitter against ties, masks of zeros / NaN, rank computations, early exits on constant
+# input).  Each class keeps the sample inside the values' own range where it can, so that the call
+# stays legal; a call that raises for a class is skipped as for the input classes.
+#   ties      a third of the observations of (at least) one variable are copies of other observations
+#   censored  one variable censored from below / above at one of its own quantiles
+#   rounded   one variable rounded to 0 / 1 decimals
+#   zeros     a quarter of one variable exactly 0.0 (sometimes -0.0)
+#   constant  one variable constant
+#   duprows   whole observations (all variables) repeated
+#   nans      missing values first, last and in a quarter of the positions (float classes)
+#   shifted   median subtracted: an exact zero, half of the values negative
+#   scaled    everything times 2**-40 / 2**40 (thorough: also 2**-300 / 2**300): exact, keeps ties
+#   small     n = 2, 3 observations;  large  n = 600 (thorough 1500) observations
+VCLASSES = ("ties", "censored", "rounded", "zeros", "constant", "duprows", "nans", "shifted", "scaled",
+            "small", "large")
+_VC = {"vc": None, "key": "", "used": False, "thorough": False}    # value class of the call being built
+
+
+def shape_values(a, vc, vrng, floats=True):
+    """the float64 reference values `a` re-shaped into value class `vc` (same shape)"""
+    a = np.array(a, dtype=np.float64)
+    if vc in (None, "small", "large") or a.ndim == 0 or a.size < 2:
+        return a
+    if vc == "scaled":
+        return a * 2.0 ** vrng.choice([-40, 40, -300, 300] if _VC["thorough"] else [-40, 40])
+    flip = a.ndim == 2 and a.shape[1] > a.shape[0]          # observations along the longer axis
+    ref = a.T if flip else a
+    m = ref.reshape(ref.shape[0], -1).copy()                 # (observations, variables)
+    n, p = m.shape
+    if n < 2:
+        return a
+    if vc == "duprows":
+        idx = vrng.sample(range(n), max(1, n // 3))
+        rest = [i for i in range(n) if i not in idx]
+        for i in idx:
+            m[i, :] = m[vrng.choice(rest), :]
+    else:
+        cols = [j for j in range(p) if vrng.random() < 0.5] or [vrng.randrange(p)]
+        for j in cols:
+            c = m[:, j]
+            if vc == "ties":
+                idx = vrng.sample(range(n), max(1, n // 3))
+                rest = [i for i in range(n) if i not in idx]
+                for i in idx:
+                    c[i] = c[vrng.choice(rest)]
+            elif vc == "censored":
+                srt = np.sort(c)
+                if vrng.random() < 0.5:
+                    c[:] = np.maximum(c, srt[n // 3])
+                else:
+                    c[:] = np.minimum(c, srt[(2 * n) // 3])
+            elif vc == "rounded":
+                lo, hi = c.min(), c.max()
+                c[:] = np.clip(np.round(c, 0 if hi - lo > 4 else 1), lo, hi)
+            elif vc == "zeros":
+                idx = vrng.sample(range(n), max(1, n // 4))
+                c[idx] = 0.0
+                if floats and vrng.random() < 0.3:
+                    c[idx[0]] = -0.0
+            elif vc == "constant":
+                c[:] = c[vrng.randrange(n)]
+            elif vc == "nans":
+                if floats:
+                    c[[0, n - 1] + vrng.sample(range(n), n // 4)] = np.nan
+            elif vc == "shifted":
+                c[:] = c - np.sort(c)[n // 2]
+            else:
+                raise ValueError(vc)
+    out = m.reshape(ref.shape)
+    return np.ascontiguousarray(out.T) if flip else out
+
+
+def vc_shape(values, rng, floats=True):
+    """for builders that make their own containers (grids, time series): the value class of the
+    call being built applied to `values`"""
+    _VC["used"] = True
+    if _VC["vc"] is None:
+        return np.array(values, dtype=np.float64)
+    return shape_values(values, _VC["vc"], random.Random(f"vc:{_VC['vc']}:{_VC['key']}:{rng.random()}"), floats)
+
+
+def convert(arr, cls, argname="", vc=None, vkey=""):
     """-> (object handed to the function, list of buffers that must not change)"""
     if cls[0] == "mix":       # an independently drawn class for every argument
         cls = CLASSES[random.Random(f"{cls[1]}:{argname}").randrange(len(CLASSES))]
     cont, dt, lay = cls
     a = arr.a
+    vrng = None
+    if vc is not None and arr.data:
+        vrng = random.Random(f"vc:{vc}:{vkey}:{argname}")
+        a = shape_values(a, vc, vrng, floats=dt in ("f8", "f4"))
     if arr.nan_at is not None and dt in ("f8", "f4") and a.size:
         a = a.copy()
         a.flat[arr.nan_at % a.size] = np.nan
@@ -116,10 +207,13 @@ def convert(arr, cls, argname=""):
         return a.tolist(), []
     if cont == "pd":
         import pandas as pd
+        # value-class runs: half of the pandas inputs carry a daily time index instead of 0..n-1
+        index = (pd.date_range("2001-03-01", periods=a.shape[0], freq="D")
+                 if vrng is not None and a.ndim in (1, 2) and vrng.random() < 0.5 else None)
         if a.ndim == 1:
-            return pd.Series(a.copy()), []
+            return pd.Series(a.copy(), index=index), []
         if a.ndim == 2:
-            return pd.DataFrame(a.copy(), columns=[f"c{j}" for j in range(a.shape[1])]), []
+            return pd.DataFrame(a.copy(), index=index, columns=[f"c{j}" for j in range(a.shape[1])]), []
         return a.copy(), []
     if lay == "S" and a.ndim in (1, 2):
         shape = tuple(2 * s + 1 for s in a.shape)
@@ -332,6 +426,11 @@ def build_catalogue(ctx):
     # ---------------- stat.metrics
     S.append(Spec("metrics.pit", obs_ens, lambda a: metrics.pit(a["obs"], a["ens"])))
     S.append(Spec("metrics.pit[random]", obs_ens, lambda a: metrics.pit(a["obs"], a["ens"], random=True), seeded=True))
+    for kd in ("weak", "strict", "mean"):
+        S.append(Spec(f"metrics.pit[kind={kd},censor]", obs_ens,
+                      lambda a, kd=kd: metrics.pit(a["obs"], a["ens"], kind=kd, censor=3.0)))
+    S.append(Spec("metrics.pit[random,censor]", obs_ens,
+                  lambda a: metrics.pit(a["obs"], a["ens"], random=True, cst=0.4, censor=3.0), seeded=True))
     S.append(Spec("metrics.crps", obs_ens, lambda a: metrics.crps(a["obs"], a["ens"]),
                   site="metrics.crps", margs=("obs", "ens")))
     S.append(Spec("metrics.anderson_darling_test", lambda rng, n: {"unifdata": Arr(vec(rng, n, "unit"))},
@@ -343,6 +442,10 @@ def build_catalogue(ctx):
         S.append(Spec(f"metrics.alpha[{tp}]", obs_ens,
                       lambda a, tp=tp: metrics.alpha(a["obs"], a["ens"], type=tp), seeded=True,
                       site="metrics.alpha" if tp == "AD" else None, margs=("obs", "ens")))
+    S.append(Spec("metrics.alpha[KS,sudo_perc_threshold]", lambda rng, n: obs_ens(rng, n, kind="normal"),
+                  lambda a: metrics.alpha(a["obs"], a["ens"], type="KS", sudo_perc_threshold=60), seeded=True))
+    S.append(Spec("metrics.iqr[coverage]", lambda rng, n: {"ens": Arr(mat(rng, n, 6, "pos")), "ref": Arr(mat(rng, n, 7, "pos"))},
+                  lambda a: metrics.iqr(a["ens"], a["ref"], coverage=80.)))
     S.append(Spec("metrics.iqr", lambda rng, n: {"ens": Arr(mat(rng, n, 6, "pos")), "ref": Arr(mat(rng, n, 7, "pos"))},
                   lambda a: metrics.iqr(a["ens"], a["ref"])))
     for nm, fn in (("bias", metrics.bias), ("nse", metrics.nse), ("kge", metrics.kge)):
@@ -358,6 +461,14 @@ def build_catalogue(ctx):
     for tp in ("Pearson", "Spearman"):
         S.append(Spec(f"metrics.corr[{tp}]", obs_ens,
                       lambda a, tp=tp: metrics.corr(a["obs"], a["ens"], type=tp, stat="mean", excludenull=True)))
+    S.append(Spec("metrics.corr[censor,median]", obs_ens,
+                  lambda a: metrics.corr(a["obs"], a["ens"], type="Spearman", stat="median", censor=3.0,
+                                         trans=transform.get_transform("Log", nu=0.5))))
+    S.append(Spec("metrics.dscore[eps]", lambda rng, n: {"obs": Arr(vec(rng, n, "pos")), "sim": Arr(mat(rng, n, 4, "pos"))},
+                  lambda a: metrics.dscore(a["obs"], a["sim"], eps=0.5)))
+    S.append(Spec("metrics.absolute_peak_error[neventmax]", lambda rng, n: obs_sim(rng, max(n, 40)),
+                  lambda a: metrics.absolute_peak_error(a["obs"], a["sim"], winerase=3, winpeakbefore=1,
+                                                        winpeakafter=1, neventmax=3)))
     S.append(Spec("metrics.absolute_peak_error", lambda rng, n: obs_sim(rng, max(n, 40)),
                   lambda a: metrics.absolute_peak_error(a["obs"], a["sim"], winerase=6, winpeakbefore=2,
                                                         winpeakafter=3)))
@@ -378,13 +489,25 @@ def build_catalogue(ctx):
                   lambda a: sutils.acf(a["data"], maxlag=3)))
     S.append(Spec("sutils.acf[idx]", lambda rng, n: {"data": Arr(vec(rng, n)), "idx": np.array([rng.random() < 0.8 for _ in range(n)])},
                   lambda a: sutils.acf(a["data"], maxlag=2, idx=a["idx"])))
-    S.append(Spec("sutils.lhs", lambda rng, n: {"pmin": Arr([0., -1., 2.]), "pmax": Arr([1., 3., 5.])},
+    S.append(Spec("sutils.lhs", lambda rng, n: {"pmin": Arr([0., -1., 2.], data=False), "pmax": Arr([1., 3., 5.], data=False)},
                   lambda a: sutils.lhs(7, a["pmin"], a["pmax"]), seeded=True))
-    S.append(Spec("sutils.lhs_norm", lambda rng, n: {"mean": Arr([0., 1.], containers=("nd",)),
-                                                      "cov": Arr([[2., 0.5], [0.5, 1.]])},
+    S.append(Spec("sutils.lhs_norm", lambda rng, n: {"mean": Arr([0., 1.], containers=("nd",), data=False),
+                                                      "cov": Arr([[2., 0.5], [0.5, 1.]], data=False)},
                   lambda a: sutils.lhs_norm(9, a["mean"], a["cov"]), seeded=True))
     S.append(Spec("sutils.standard_normal", lambda rng, n: {"x": Arr(vec(rng, n))},
                   lambda a: sutils.standard_normal(a["x"])))
+    for rm in ("min", "first", "dense"):
+        S.append(Spec(f"sutils.standard_normal[rank_method={rm}]", lambda rng, n: {"x": Arr(vec(rng, n))},
+                      lambda a, rm=rm: sutils.standard_normal(a["x"], cst=0.3, rank_method=rm)))
+    S.append(Spec("sutils.standard_normal[sorted]", lambda rng, n: {"x": Arr(sorted(vec(rng, n)))},
+                  lambda a: sutils.standard_normal(a["x"], sorted=True)))
+    S.append(Spec("sutils.pareto_front[orientation=-1]", lambda rng, n: {"data": Arr(mat(rng, n, 3, "posint"))},
+                  lambda a: sutils.pareto_front(a["data"], orientation=-1)))
+    S.append(Spec("sutils.lstsq[Rtest,rtest]",
+                  lambda rng, n: {"X": Arr(mat(rng, max(n, 12), 2, "pos")), "y": Arr(vec(rng, max(n, 12), "pos")),
+                                  "R": Arr([[1., 1., 0.]], data=False, containers=("nd",)),
+                                  "r": Arr([1.], data=False, containers=("nd",))},
+                  lambda a: sutils.lstsq(a["X"], a["y"], add_intercept=True, Rtest=[a["R"]], rtest=[a["r"]], rcond=1e-8)))
     S.append(Spec("sutils.semicorr", lambda rng, n: {"unorm": Arr(mat(rng, max(n, 30), 2))},
                   lambda a: sutils.semicorr(a["unorm"])))
     S.append(Spec("sutils.pareto_front", lambda rng, n: {"data": Arr(mat(rng, n, 3, "posint"))},
@@ -395,13 +518,21 @@ def build_catalogue(ctx):
                       lambda a, ai=ai: sutils.lstsq(a["X"], a["y"], add_intercept=ai)))
 
     # ---------------- stat.armodels
-    S.append(Spec("armodels.armodel_sim", lambda rng, n: {"params": Arr([0.5, -0.25]), "innov": Arr(vec(rng, n))},
+    S.append(Spec("armodels.armodel_sim", lambda rng, n: {"params": Arr([0.5, -0.25], data=False), "innov": Arr(vec(rng, n))},
                   lambda a: armodels.armodel_sim(a["params"], a["innov"], 0.5, 1.0),
                   site="armodels.armodel_sim", margs=("params", "innov")))
-    S.append(Spec("armodels.armodel_residual", lambda rng, n: {"params": Arr([0.5, -0.25]), "inputs": Arr(vec(rng, n))},
+    S.append(Spec("armodels.armodel_residual", lambda rng, n: {"params": Arr([0.5, -0.25], data=False), "inputs": Arr(vec(rng, n))},
                   lambda a: armodels.armodel_residual(a["params"], a["inputs"]),
                   site="armodels.armodel_residual", margs=("params", "inputs")))
-    S.append(Spec("armodels.yule_walker", lambda rng, n: {"acf": Arr([1., 0.5, 0.25, 0.125])},
+    S.append(Spec("armodels.armodel_sim[2d,sim_ini]", lambda rng, n: {"params": Arr([0.5, -0.25], data=False),
+                                                                       "innov": Arr(mat(rng, n, 3))},
+                  lambda a: armodels.armodel_sim(a["params"], a["innov"], 0.5, sim_ini=2.0)))
+    S.append(Spec("armodels.armodel_residual[sim_mean,sim_ini]",
+                  lambda rng, n: {"params": Arr([0.5, -0.25], data=False), "inputs": Arr(vec(rng, n), nan_at=maybe(rng, n))},
+                  lambda a: armodels.armodel_residual(a["params"], a["inputs"], sim_mean=0.3, sim_ini=1.0)))
+    S.append(Spec("armodels.armodel_sim[scalar params]", lambda rng, n: {"innov": Arr(vec(rng, n))},
+                  lambda a: armodels.armodel_sim(0.6, a["innov"])))
+    S.append(Spec("armodels.yule_walker", lambda rng, n: {"acf": Arr([1., 0.5, 0.25, 0.125], data=False)},
                   lambda a: armodels.yule_walker(a["acf"])))
 
     # ---------------- stat.transform
@@ -473,11 +604,13 @@ def build_catalogue(ctx):
     for lg in (-2, 0, 3):
         S.append(Spec(f"dutils.lag[{lg}]", lambda rng, n: {"data": Arr(vec(rng, n))},
                       lambda a, lg=lg: dutils.lag(a["data"], lg)))
+    S.append(Spec("dutils.lag[missing=]", lambda rng, n: {"data": Arr(vec(rng, n))},
+                  lambda a: dutils.lag(a["data"], 2, missing=-999.)))
     S.append(Spec("dutils.lag[2d]", lambda rng, n: {"data": Arr(mat(rng, n, 3))}, lambda a: dutils.lag(a["data"], 1)))
 
     def monthly(rng, n, dt):
         idx = pd.date_range("2001-01-01", periods=30, freq="MS")
-        v = np.round(np.array(vec(rng, 30, "pos")) * 10)
+        v = np.round(vc_shape(vec(rng, 30, "pos"), rng, dt.startswith("f")) * 10)
         if dt.startswith("f") and rng.random() < 0.5:
             v[rng.randrange(30)] = np.nan
         return pd.Series(v.astype(NPDT[dt]), index=idx)
@@ -498,7 +631,8 @@ def build_catalogue(ctx):
             idx = pd.DatetimeIndex(ts)
             if rng.random() < 0.5:
                 idx = idx.as_unit("ns")
-            return {"se": pd.Series(np.round(np.array(vec(rng, 25, "pos"))).astype(NPDT[dt]), index=idx)}
+            v = vc_shape(vec(rng, 25, "pos"), rng, dt.startswith("f"))
+            return {"se": pd.Series((v if dt.startswith("f") and _VC["vc"] else np.round(v)).astype(NPDT[dt]), index=idx)}
         for P in (3600, 1800):
             S.append(Spec(f"dutils.var2h[{P},{dt}]", irregular,
                           lambda a, P=P: dutils.var2h(a["se"], nbsec_per_period=P),
@@ -507,6 +641,8 @@ def build_catalogue(ctx):
     # ---------------- data.qualitycontrol, data.signatures
     S.append(Spec("qualitycontrol.ismisscens", lambda rng, n: {"x": Arr([v if rng.random() < 0.8 else 0. for v in vec(rng, n, "pos")])},
                   lambda a: qualitycontrol.ismisscens(a["x"])))
+    S.append(Spec("qualitycontrol.ismisscens[censor,eps]", lambda rng, n: {"x": Arr(vec(rng, n, "pos"), nan_at=maybe(rng, n))},
+                  lambda a: qualitycontrol.ismisscens(a["x"], censor=4.0, eps=0.5)))
     S.append(Spec("qualitycontrol.ismisscens[2d]", lambda rng, n: {"x": Arr(mat(rng, n, 3, "pos"))},
                   lambda a: qualitycontrol.ismisscens(a["x"])))
 
@@ -517,6 +653,14 @@ def build_catalogue(ctx):
         return {"data": Arr(v, nan_at=(0 if rng.random() < 0.4 else None))}
     S.append(Spec("qualitycontrol.islinear", lin, lambda a: qualitycontrol.islinear(a["data"], npoints=1),
                   site="qualitycontrol.islinear", margs=("data",)))
+    S.append(Spec("qualitycontrol.islinear[npoints=3,thresh]", lin,
+                  lambda a: qualitycontrol.islinear(a["data"], npoints=3, tol=1e-3, thresh=2.0)))
+    S.append(Spec("signatures.eckhardt[options]", lambda rng, n: {"flow": Arr(vec(rng, max(n, 30), "pos"))},
+                  lambda a: signatures.eckhardt(a["flow"], thresh=0.9, tau=10, BFI_max=0.5, timestep_type=0)))
+    S.append(Spec("signatures.fdcslope[trans]", lambda rng, n: {"x": Arr(vec(rng, max(n, 60), "pos"))},
+                  lambda a: signatures.fdcslope(a["x"], q1=50, q2=90, trans=transform.get_transform("Log", nu=0.5))))
+    S.append(Spec("signatures.goue[trans]", agg,
+                  lambda a: signatures.goue(a["aggindex"], a["inputs"], trans=transform.get_transform("Log", nu=0.5))))
     S.append(Spec("signatures.eckhardt", lambda rng, n: {"flow": Arr(vec(rng, max(n, 30), "pos"))},
                   lambda a: signatures.eckhardt(a["flow"]), site="signatures.eckhardt", margs=("flow",)))
     S.append(Spec("signatures.fdcslope", lambda rng, n: {"x": Arr(vec(rng, max(n, 60), "pos"))},
@@ -534,7 +678,8 @@ def build_catalogue(ctx):
         return g
 
     def gridarg(rng, n, dt="f8", nr=5, nc=6):
-        return mkgrid([[float(rng.randint(1, 30)) for _ in range(nc)] for _ in range(nr)], dt)
+        return mkgrid(vc_shape([[float(rng.randint(1, 30)) for _ in range(nc)] for _ in range(nr)], rng,
+                               dt.startswith("f")), dt)
 
     for gdt in ("f8", "i8", "f4", "i4"):
         GC = [("nd", gdt, "C")]
@@ -613,17 +758,17 @@ def build_catalogue(ctx):
                                                                for _ in range(12)], "i8")},
                       lambda a: hygrid.gsmooth(a["grid"], a["mask"], coastwin=3, sigma=0.3), classes=GC))
     poly = [[0.6, 0.7], [5.2, 0.9], [4.8, 4.4], [2.5, 2.2], [0.9, 4.1]]
-    S.append(Spec("Grid.cells_inside_polygon", lambda rng, n: {"self": gridarg(rng, n), "polygon": Arr(poly)},
+    S.append(Spec("Grid.cells_inside_polygon", lambda rng, n: {"self": gridarg(rng, n), "polygon": Arr(poly, data=False)},
                   lambda a: a["self"].cells_inside_polygon(a["polygon"]),
                   site="grid.Grid.cells_inside_polygon", margs=("polygon",), selfkind="grid"))
     S.append(Spec("gutils.points_inside_polygon",
                   lambda rng, n: {"points": Arr([[rng.uniform(0, 6), rng.uniform(0, 5)] for _ in range(n)]),
-                                  "polygon": Arr(poly)},
+                                  "polygon": Arr(poly, data=False)},
                   lambda a: gutils.points_inside_polygon(a["points"], a["polygon"]),
                   site="gutils.points_inside_polygon", margs=("points", "polygon")))
     S.append(Spec("gutils.points_inside_polygon[inside=]",
                   lambda rng, n: {"points": Arr([[rng.uniform(0, 6), rng.uniform(0, 5)] for _ in range(n)]),
-                                  "polygon": Arr(poly), "inside": np.ones(n, dtype=np.int32)},
+                                  "polygon": Arr(poly, data=False), "inside": np.ones(n, dtype=np.int32)},
                   lambda a: gutils.points_inside_polygon(a["points"], a["polygon"], inside=a["inside"]).copy(),
                   skipargs=("inside",)))
 
@@ -777,6 +922,10 @@ def build_catalogue(ctx):
                   lambda a: boxplot.boxplot_stats(a["data"], 50., 90.)))
     S.append(Spec("boxplot.Boxplot", lambda rng, n: {"data": Arr(mat(rng, n, 3))},
                   with_ax(lambda ax, a: (lambda b: (b.draw(ax=ax), b.stats)[1])(boxplot.Boxplot(a["data"])))))
+    S.append(Spec("boxplot.Boxplot[narrow,options,logscale]", lambda rng, n: {"data": Arr(mat(rng, n, 3, "pos"))},
+                  with_ax(lambda ax, a: (lambda b: (b.draw(ax=ax, logscale=True, xoffset=0.5), b.stats)[1])(
+                      boxplot.Boxplot(a["data"], style="narrow", show_mean=True, show_text=True, center_text=False,
+                                      width_from_count=True, box_coverage=40., whiskers_coverage=80.)))))
     S.append(Spec("boxplot.Boxplot[by]", lambda rng, n: {"data": Arr(vec(rng, max(n, 24))),
                                                           "by": Arr([float(j % 3) for j in range(max(n, 24))], ints=True)},
                   with_ax(lambda ax, a: (lambda b: (b.draw(ax=ax), b.show_count(), b.stats)[2])(
@@ -784,6 +933,16 @@ def build_catalogue(ctx):
     S.append(Spec("violinplot.Violin", lambda rng, n: {"data": Arr(mat(rng, max(n, 20), 2))},
                   with_ax(lambda ax, a: (lambda v: (v.draw(ax=ax), v.stats, v.kde_x, v.kde_y)[1:])(
                       violinplot.Violin(a["data"]))), seeded=True))
+    S.append(Spec("violinplot.Violin[npoints,nresample,ylim]", lambda rng, n: {"data": Arr(mat(rng, max(n, 20), 2))},
+                  with_ax(lambda ax, a: (lambda v: (v.draw(ax=ax, ylim=(-3., 3.)), v.stats, v.kde_x, v.kde_y)[1:])(
+                      violinplot.Violin(a["data"], show_text=False, npoints_kde=30, nresample_kde=10))), seeded=True))
+    S.append(Spec("putils.qqplot[censor=None]", lambda rng, n: {"data": Arr(vec(rng, n))},
+                  with_ax(lambda ax, a: putils.qqplot(ax, a["data"], addline=True))))
+    S.append(Spec("putils.ecdfplot[cst]", lambda rng, n: {"df": Arr(mat(rng, n, 3), containers=("pd",))},
+                  with_ax(lambda ax, a: sorted(putils.ecdfplot(ax, a["df"], label_stat="median", cst=0.3).keys())),
+                  classes=[("pd", "f8", "C"), ("pd", "i8", "C"), ("pd", "f4", "C")]))
+    S.append(Spec("putils.kde[eps large,ngrid]", lambda rng, n: {"xy": Arr(mat(rng, max(n, 15), 2))},
+                  lambda a: putils.kde(a["xy"], ngrid=9, eps=1e-3), seeded=True))
     return S
 
 
@@ -1369,15 +1528,19 @@ def grid_history(ctx, hygrid, crng, cls, gdt, nsteps, replay, orc_fail):
     from hydrodiy.gis import gutils  # noqa: F401
     nr, nc = 5, 6
     H = History(ctx, "grid", replay, orc_fail)
+    vc = replay.get("vc")              # value class of the cell values / of the arrays of values of the pool
+    vkey = f"hist:{replay['sub']}"
 
     def arg(label, arr):
-        o, guards = convert(arr, cls, label)
+        o, guards = convert(arr, cls, label, vc, vkey)
         return H.hold(label, o, guards)
 
     def cells():
         return [[float(crng.randint(1, 30)) for _ in range(nc)] for _ in range(nr)]
     first = cells()
-    replay["data"] = first
+    if vc is not None:
+        first = shape_values(first, vc, random.Random(f"vc:{vc}:{vkey}:first"), floats=gdt.startswith("f")).tolist()
+    replay["data"] = [[repr(v) for v in row] for row in first] if vc == "nans" else first
     values = [arg(f"value{j}", Arr(cells())) for j in range(2)]
     index = arg("index", Arr([float(c) for c in crng.sample(range(nr * nc), 4)], ints=True))
     newvals = arg("newvalues", Arr([float(crng.randint(1, 30)) for _ in range(4)]))
@@ -1483,19 +1646,25 @@ def run_histories(ctx, rng, orc_fail):
     todo = []
     rp = ctx.replay.get("replay") if ctx.replay else None
     if isinstance(rp, dict) and "history" in rp:
-        todo.append((rp["history"], tuple(rp["cls"]), rp["dtype"], rp["sub"], rp["nsteps"]))
+        todo.append((rp["history"], tuple(rp["cls"]), rp["dtype"], rp["sub"], rp["nsteps"], rp.get("vc")))
     ncatch, ngrid = ctx.scale(36, 240), ctx.scale(28, 160)
     pool = CLASSES + [("mix", str(rng.randrange(10 ** 6)), "") for _ in range(ctx.scale(4, 12))]
     for k in range(ncatch):
         todo.append(("catchment", pool[k % len(pool)], ("i8", "f8", "i4")[k % 3 if k % 7 else rng.randrange(3)],
-                     rng.randrange(10 ** 9), rng.choice([10, 14, 18])))
+                     rng.randrange(10 ** 9), rng.choice([10, 14, 18]), None))
+    # grid histories: every other one on cell values of a value class (constant grid, zeros, missing cells,
+    # extreme magnitudes, repeated rows ...): the same classes as for the single calls
+    hvc = [v for v in VCLASSES if v not in ("small", "large")]
+    hoff = rng.randrange(len(hvc))
     for k in range(ngrid):
         todo.append(("grid", pool[k % len(pool)], ("f8", "i8", "f4", "i4")[rng.randrange(4)],
-                     rng.randrange(10 ** 9), rng.choice([10, 14, 18])))
+                     rng.randrange(10 ** 9), rng.choice([10, 14, 18]), hvc[(k // 2 + hoff) % len(hvc)] if k % 2 else None))
     nsteps_run, nfail, nbuild = 0, 0, 0
-    for kind, cls, dt, sub, nsteps in todo:
+    for kind, cls, dt, sub, nsteps, vc in todo:
         crng = random.Random(f"hist:{kind}:{sub}")
         replay = {"history": kind, "cls": list(cls), "dtype": dt, "sub": sub, "nsteps": nsteps}
+        if vc is not None:
+            replay["vc"] = vc
         fn = catchment_history if kind == "catchment" else grid_history
         try:
             with warnings.catch_warnings():
@@ -1582,10 +1751,10 @@ def collect(ctx):
     todo = []
     corpus = cm.load_corpus(PID)
     for c in corpus:
-        todo.append((c["fn"], tuple(c["cls"]), c["sub"], c.get("n", 9)))
+        todo.append((c["fn"], tuple(c["cls"]), c["sub"], c.get("n", 9), c.get("vc")))
     if ctx.replay and isinstance(ctx.replay.get("replay"), dict) and "fn" in ctx.replay["replay"]:
         c = ctx.replay["replay"]
-        todo.insert(0, (c["fn"], tuple(c["cls"]), c["sub"], c.get("n", 9)))
+        todo.insert(0, (c["fn"], tuple(c["cls"]), c["sub"], c.get("n", 9), c.get("vc")))
     nseeds = ctx.scale(2, 8)
     nmix = ctx.scale(2, 12)
     for spec in catalogue:
@@ -1593,31 +1762,68 @@ def collect(ctx):
         for cls in classes:
             for k in range(nseeds):
                 n = rng.choice([8, 9, 12]) if not ctx.thorough else rng.choice([5, 8, 13, 40, 150])
-                todo.append((spec.name, cls, rng.randrange(10 ** 9), n))
+                todo.append((spec.name, cls, rng.randrange(10 ** 9), n, None))
+    # value classes (ties, censored, rounded, zeros, constant variable, repeated observations, missing values,
+    # negative values, extreme magnitudes, extreme sizes) x input classes in which the function may receive the
+    # caller's own float64 memory (ndarray C / strided / Fortran, pandas) and a few converting ones.  They run
+    # after the plain calls, which tell which functions take a sample of observations at all.
+    _VC["thorough"] = bool(ctx.thorough)
+    direct = [("nd", "f8", "C"), ("nd", "f8", "S"), ("nd", "f8", "F")]
+    other = [("pd", "f8", "C"), ("nd", "f4", "C"), ("list", "f8", "C")]
+    off = rng.randrange(12)
+    for si, spec in enumerate(catalogue):
+        for vi, vc in enumerate(VCLASSES):
+            r = si + vi + off
+            if spec.classes:
+                classes = [spec.classes[r % len(spec.classes)]]
+            elif ctx.thorough:
+                classes = direct + other + [("mix", str(rng.randrange(10 ** 6)), "") for _ in range(2)]
+            else:       # quick: one direct class per (function, value class), a converting one for every third
+                classes = [direct[r % 3]]
+                if r % 3 == 0:
+                    classes.append((other + [("mix", str(rng.randrange(10 ** 6)), "")])[(r // 3) % 4])
+            for cls in classes:
+                for k in range(ctx.scale(1, 2)):
+                    n = (rng.choice([2, 3]) if vc == "small" else ctx.scale(600, 1500) if vc == "large" else
+                         rng.choice([8, 9, 12, 20]) if not ctx.thorough else rng.choice([5, 8, 13, 40, 150]))
+                    todo.append((spec.name, cls, rng.randrange(10 ** 9), n, vc))
     byname = {s.name: s for s in catalogue}
     pipe_seen = set()
+    takes_sample = {}      # function -> a build of it contained a sample of observations
+    nvc = {}
 
-    for (fname, cls, sub, n) in todo:
+    for (fname, cls, sub, n, vc) in todo:
         spec = byname.get(fname)
         if spec is None:
             continue
+        if vc is not None and takes_sample.get(fname) is False:
+            continue           # nothing to re-shape in the arguments of this function
         crng = random.Random(f"{fname}:{sub}")
         replay = {"fn": fname, "cls": list(cls), "sub": sub, "n": n}
+        if vc is not None:
+            replay["vc"] = vc
+        vkey = f"{fname}:{sub}"
+        _VC.update(vc=vc, key=vkey, used=False)
         with warnings.catch_warnings():
             warnings.simplefilter("ignore")
             with np.errstate(all="ignore"):
                 try:
                     raw = spec.build(crng, n)
                 except Exception as e:      # a builder that fails is a harness problem, not a verdict
+                    _VC.update(vc=None)
                     outcome.setdefault(fname, {"ok": 0, "raised": 0, "build_failed": 0})
                     outcome[fname]["build_failed"] = outcome[fname].get("build_failed", 0) + 1
                     ctx.notes.setdefault("build_failures", []).append(f"{fname}: {type(e).__name__}: {e}"[:200])
                     continue
+        built_own = _VC["used"]
+        _VC.update(vc=None)
         args, guards = {}, {}
+        has_sample = [built_own]
 
         def conv(v, nm):
             if isinstance(v, Arr):
-                o, extra = convert(v, cls, nm)
+                has_sample[0] = has_sample[0] or (v.data and v.a.size > 1)
+                o, extra = convert(v, cls, nm, vc, vkey)
                 return o, extra
             if isinstance(v, dict):
                 out, extra = {}, []
@@ -1631,8 +1837,14 @@ def collect(ctx):
             o, extra = conv(v, kname)
             args[kname] = o
             guards[kname] = extra
+        if vc is None:
+            takes_sample[fname] = takes_sample.get(fname, False) or has_sample[0]
+        elif not has_sample[0]:
+            continue
+        if vc is not None:
+            nvc[vc] = nvc.get(vc, 0) + 1
         before = {kname: (snap(o), [snap(b) for b in guards[kname]]) for kname, o in args.items()}
-        shown = {kname: short(o) for kname, o in args.items()}
+        shown = {kname: short(o, 6 if vc is None else 40) for kname, o in args.items()}
         replay["arguments"] = shown
         seed = crng.randrange(2 ** 31)
 
@@ -1686,14 +1898,19 @@ def collect(ctx):
             if d or gd:
                 mutated = True
                 what = (f"{fname} changed its argument `{kname}` ({d or 'memory around the strided view'}) "
-                        f"for input class {cls}"
+                        f"for input class {cls}" + ("" if vc is None else f", value class `{vc}`")
                         + ("" if err is None else f" before raising {type(err).__name__}"))
                 key = f"C18/{fname.split('[')[0]}/argument-mutated:{kname}" + ("" if err is None else "/then-raised")
                 rp = dict(replay, argument=kname, aspect=d or "surrounding-buffer", before=shown[kname],
-                          after=short(o), outcome=status)
+                          after=short(o, 6 if vc is None else 40), outcome=status)
+                full = _unsnap(b0)
+                if isinstance(full, np.ndarray) and full.size <= 400 and isinstance(o, np.ndarray) and o.shape == full.shape:
+                    rp["before_full"] = [repr(float(x)) if full.dtype.kind == "f" else int(x) for x in full.ravel()]
+                    rp["changed_positions"] = [[int(i) for i in ix] for ix in
+                                               np.argwhere(~((full == o) | ((full != full) & (o != o))))[:20]]
                 orc_fail.add(-1 - len(orc_fail))
                 ctx.failure(key, rp, what)
-        ctx.count((fname, cls if cls[0] != "mix" else ("mix",), status.split(":")[0], mutated))
+        ctx.count((fname, cls if cls[0] != "mix" else ("mix",), status.split(":")[0], mutated, vc))
         if len(ctx.samples) < 6 and err is None and rng.random() < 0.02:
             ctx.sample({"fn": fname, "class": list(cls), "arguments": shown, "outcome": status})
 
@@ -1726,7 +1943,8 @@ def collect(ctx):
             key = f"C18/{fname.split('[')[0]}/not-repeatable"
             rp = dict(replay, first=repr(res1)[:300], second=repr(res2)[:300])
             orc_fail.add(-1 - len(orc_fail))
-            ctx.failure(key, rp, f"{fname}: two consecutive calls with the same arguments and seed differ (class {cls})")
+            ctx.failure(key, rp, f"{fname}: two consecutive calls with the same arguments and seed differ (class {cls}"
+                        + ("" if vc is None else f", value class `{vc}`") + ")")
         # the second call must leave the arguments alone as well
         for kname, o in args.items():
             if kname in spec.skipargs:
@@ -1748,6 +1966,11 @@ def collect(ctx):
     never = sorted(f for f, oc in outcome.items() if oc["ok"] == 0)
     ctx.notes["functions_run"] = len(outcome)
     ctx.notes["functions_never_completed"] = never
+    ctx.notes["value_class_calls"] = dict(sorted(nvc.items()))
+    ctx.notes["functions_taking_a_sample"] = sum(1 for v in takes_sample.values() if v)
+    ctx.obligation("every value class ran on the functions taking a sample of observations (generator not degenerate)",
+                   all(nvc.get(v, 0) >= 0.5 * ctx.notes["functions_taking_a_sample"] for v in VCLASSES)
+                   and ctx.notes["functions_taking_a_sample"] >= 0.5 * len(catalogue))
     ctx.notes["calls_completed"] = sum(oc["ok"] for oc in outcome.values())
     ctx.notes["calls_raised"] = sum(oc["raised"] for oc in outcome.values())
     ctx.notes["idiom_cases"] = n_op
